@@ -773,6 +773,9 @@ func (r *runner) simple(ctx context.Context, s Step, path string, res *StepResul
 		if name == "" {
 			return errors.New("atrun: tx_begin needs a conn name")
 		}
+		if _, open := r.txs[via+":"+name]; open {
+			return errors.New("atrun: a tx is already open on conn " + name) // database/sql would block for ever
+		}
 		c, err := r.namedConn(ctx, via, name)
 		if err != nil {
 			return err
